@@ -146,7 +146,7 @@ impl<'r, R: ReadValue> Field<'r, R> {
             FieldValue::Len(len) => {
                 self.consume_field()?;
                 Ok(Fields {
-                    reader: self.reader.sub_limit(len),
+                    reader: self.reader.sub_limit(len)?,
                     context,
                     unconsumed_field: None,
                 })
@@ -242,10 +242,10 @@ impl<'r, R: ReadValue> Field<'r, R> {
             FieldValue::Varint(val) => Repeated::Unpacked(Some(from_u64(val))),
             FieldValue::Len(len) => {
                 let consumed = &mut self.consumed;
-                let mut reader = self.reader.sub_limit(len);
+                let mut reader = self.reader.sub_limit(len)?;
                 let iter = std::iter::from_fn(move || match reader.read_varint() {
                     Ok(val) => Some(Ok(from_u64(val))),
-                    Err(err) if matches!(err.kind(), ErrorKind::Eof) => {
+                    Err(err) if matches!(err.kind(), ErrorKind::Eof) && reader.may_end_here() => {
                         *consumed = true;
                         None
                     }
@@ -269,10 +269,10 @@ impl<'r, R: ReadValue> Field<'r, R> {
             FieldValue::I32(val) => Repeated::Unpacked(Some(from_le_bytes(val.to_le_bytes()))),
             FieldValue::Len(len) => {
                 let consumed = &mut self.consumed;
-                let mut reader = self.reader.sub_limit(len);
+                let mut reader = self.reader.sub_limit(len)?;
                 let iter = std::iter::from_fn(move || match reader.read_i32() {
                     Ok(val) => Some(Ok(from_le_bytes(val.to_le_bytes()))),
-                    Err(err) if matches!(err.kind(), ErrorKind::Eof) => {
+                    Err(err) if matches!(err.kind(), ErrorKind::Eof) && reader.may_end_here() => {
                         *consumed = true;
                         None
                     }
@@ -296,10 +296,10 @@ impl<'r, R: ReadValue> Field<'r, R> {
             FieldValue::I64(val) => Repeated::Unpacked(Some(from_le_bytes(val.to_le_bytes()))),
             FieldValue::Len(len) => {
                 let consumed = &mut self.consumed;
-                let mut reader = self.reader.sub_limit(len);
+                let mut reader = self.reader.sub_limit(len)?;
                 let iter = std::iter::from_fn(move || match reader.read_i64() {
                     Ok(val) => Some(Ok(from_le_bytes(val.to_le_bytes()))),
-                    Err(err) if matches!(err.kind(), ErrorKind::Eof) => {
+                    Err(err) if matches!(err.kind(), ErrorKind::Eof) && reader.may_end_here() => {
                         *consumed = true;
                         None
                     }
@@ -432,8 +432,11 @@ impl<'r, R: ReadValue> Fields<'r, R> {
 
         let tag = match self.reader.read_varint() {
             Ok(tag) => tag,
-            Err(err) if matches!(err.kind(), ErrorKind::Eof) => return Ok(None),
-            Err(err) => return Err(err),
+            // The input may only end where this message ends.
+            Err(err) if matches!(err.kind(), ErrorKind::Eof) && self.reader.may_end_here() => {
+                return Ok(None);
+            }
+            Err(err) => return Err(err.with_context(self.context, None)),
         };
         let number = tag >> 3;
         let wire_type = tag & 0x7;
@@ -453,8 +456,12 @@ impl<'r, R: ReadValue> Fields<'r, R> {
         }
         .map_err(|err| err.with_context(self.context, Some(number)))?;
 
+        let reader = self
+            .reader
+            .sub_limit(len)
+            .map_err(|err| err.with_context(self.context, Some(number)))?;
         Ok(Some(Field {
-            reader: self.reader.sub_limit(len),
+            reader,
             number,
             consumed: !matches!(value, FieldValue::Len(_)),
             value,
